@@ -423,7 +423,7 @@ type child struct {
 // resourceClass names the input class in keys of resource findings (allocation, hang, fatal).
 func resourceClass(in Input, v V) string {
 	switch in.Kind {
-	case "deep-arrays", "deep-arrays-truncated", "deep-tags", "deep-maps", "deep-indefinite", "nested-arrays-claiming-n", "nested-maps-claiming-n":
+	case "deep-arrays", "deep-arrays-truncated", "deep-tags", "deep-maps", "deep-indefinite", "nested-arrays-claiming-n", "nested-maps-claiming-n", "inflated-partly-filled":
 		return in.Kind
 	}
 	return classLabel(in.B, v)
